@@ -257,6 +257,13 @@ class Verdicts:
         if not self.violations:
             return 0
         os.makedirs(REPLAYS, exist_ok=True)
+        # replay files of earlier runs of this check are stale
+        import glob
+        for old in glob.glob(os.path.join(REPLAYS, "%s-*.json" % self.pid)):
+            try:
+                os.remove(old)
+            except OSError:
+                pass
         allkeys = sorted({k for k, _, _ in self.violations})
         log("[%s] %d violation(s), %d distinct key(s): %s" % (self.pid, len(self.violations), len(allkeys), allkeys[:80]))
         seen = set()
